@@ -177,37 +177,77 @@ Definition reached_names : list nat :=
 Definition unused_names : list nat :=
   filter (fun n => negb (memb n reached_names)) (dedup (map fst g)).
 
-(** checkRecursion (after the fix): returns (must consume, names warned in order) *)
-Fixpoint chk_f (n : nat) (path : list nat) (e : expr) {struct n} : bool * list nat :=
-  match n with
-  | O => (false, [])
-  | S n =>
+(** checkRecursion (after the fix): returns (must consume, names warned in order).
+    Structural on the expression; the fuel is only spent when a rule body is entered (the path grows
+    by a new name each time, so [S (length g)] is always enough: Proofs/LeftRec.v). *)
+Fixpoint chk_f (n : nat) : list nat -> expr -> bool * list nat :=
+  fun path =>
+  fix chk_e (e : expr) : bool * list nat :=
     match e with
     | EName m =>
         match lookup_def g m with
         | None => (false, [])
-        | Some b => if memb m path then (false, [m]) else chk_f n (m :: path) b
+        | Some b =>
+            if memb m path then (false, [m])
+            else match n with
+                 | O => (false, [])
+                 | S n' => chk_f n' (m :: path) b
+                 end
         end
     | EAlt es =>
-        fold_left (fun acc x => let r := chk_f n path x in (fst acc && fst r, snd acc ++ snd r)) es (true, [])
+        fold_left (fun acc x => let r := chk_e x in (fst acc && fst r, snd acc ++ snd r)) es (true, [])
     | ESeq es =>
         (* elements in order until one consumes *)
         (fix go (l : list expr) (w : list nat) : bool * list nat :=
            match l with
            | [] => (false, w)
-           | x :: l' => let r := chk_f n path x in
+           | x :: l' => let r := chk_e x in
                         if fst r then (true, w ++ snd r) else go l' (w ++ snd r)
            end) es []
-    | EAnd e1 | ENot e1 | EQuery e1 | EStar e1 => (false, snd (chk_f n path e1))
-    | EPlus e1 | EPush e1 => chk_f n path e1
+    | EAnd e1 | ENot e1 | EQuery e1 | EStar e1 => (false, snd (chk_e e1))
+    | EPlus e1 | EPush e1 => chk_e e1
     | EDot | EChar _ | ERange _ _ => (true, [])
     | _ => (false, [])
-    end
-  end.
+    end.
 
 (** one run per definition, in order *)
 Definition leftrec_warnings : list nat :=
-  flat_map (fun d => snd (chk_f (S rawsize * S (length g)) [] (EName (fst d)))) g.
+  flat_map (fun d => snd (chk_f (S (length g)) [] (EName (fst d)))) g.
+
+(** ** what the warning is about: a rule that can come back to itself in head position.
+    [nullable]: may succeed without consuming (least fixed point; lookahead, ? and * are transparent,
+    and so is a name without definition, which is reported separately).
+    [hsub b e]: the sub-expression e of b can be reached before b has consumed anything. *)
+Inductive nullable : expr -> Prop :=
+| nl_name m b : lookup_def g m = Some b -> nullable b -> nullable (EName m)
+| nl_undef m : lookup_def g m = None -> nullable (EName m)
+| nl_alt es x : In x es -> nullable x -> nullable (EAlt es)
+| nl_seq es : Forall nullable es -> nullable (ESeq es)
+| nl_and e : nullable (EAnd e)
+| nl_not e : nullable (ENot e)
+| nl_query e : nullable (EQuery e)
+| nl_star e : nullable (EStar e)
+| nl_plus e : nullable e -> nullable (EPlus e)
+| nl_push e : nullable e -> nullable (EPush e)
+| nl_pred k : nullable (EPred k)
+| nl_state k : nullable (EState k)
+| nl_act k : nullable (EAct k)
+| nl_nil : nullable ENil
+| nl_switch cs d : nullable (ESwitch cs d).      (* never present in a grammar as written *)
+
+Inductive hsub (b : expr) : expr -> Prop :=
+| hs_refl : hsub b b
+| hs_alt es x : hsub b (EAlt es) -> In x es -> hsub b x
+| hs_seq l1 x l2 : hsub b (ESeq (l1 ++ x :: l2)) -> Forall nullable l1 -> hsub b x
+| hs_and e : hsub b (EAnd e) -> hsub b e
+| hs_not e : hsub b (ENot e) -> hsub b e
+| hs_query e : hsub b (EQuery e) -> hsub b e
+| hs_star e : hsub b (EStar e) -> hsub b e
+| hs_plus e : hsub b (EPlus e) -> hsub b e
+| hs_push e : hsub b (EPush e) -> hsub b e.
+
+(** rule m can call rule k without having consumed *)
+Definition hstep (m k : nat) : Prop := exists b, lookup_def g m = Some b /\ hsub b (EName k).
 
 End Diag.
 
